@@ -9,10 +9,12 @@ ASSUMPTIONS = [
     "shows the hypothesis is necessary) and non-negative powers",
     "active delegation amounts are non-negative and sum to at most the delegation pool balance (property C12); the harness also runs "
     "pools that exceed the table (genesis balance without delegators)",
-    "the pulled amount is non-negative: proved (C13_pull_nonneg) outside the trigger C13.zero_length_cycle, i.e. when the last full "
-    "cycle's header times span at least one second",
+    "the pulled amount is non-negative: proved (C13_pull_nonneg) for sane options (cycle > 0, window >= 0, burnout >= 0), a "
+    "non-negative pool and a forecast product secsToClose*cycle inside int64",
+    "the property bounds each single pull by what the year had left when the cycle began; after a slow cycle the forecast can be "
+    "shorter than the cycle, so a year's TOTAL can still exceed its supply (C13_year_total_can_exceed_supply) — not covered by the property as stated",
     "int64(d.Seconds()) is modelled as truncation of d/1e9: exact for |d| < 2^32 s with a sub-second part <= 999_999_000 ns "
-    "(dur_guard); int64(float64(a)/float64(b)) is modelled as truncated division for |a|,|b| < 2^52 and as -2^63 for b = 0 (amd64); "
+    "(dur_guard); int64(float64(a)/float64(b)) is modelled as truncated division for |a|,|b| < 2^52 (b >= 1 since 0cc9fdb); "
     "generated header times stay inside these guards",
     "block header times of the block store are inputs (function bt); year close times are read from the rwcum_ydist record "
     "(Go's AddDate is not modelled)",
@@ -27,16 +29,15 @@ VIOL = {10: "credits exceed the pulled amount", 11: "negative credit", 12: "nega
         21: "pulled amount above the remaining year supply / the pool-capped burnout rate",
         30: "cumulative invariant broken (balance < 0 or balance + withdrawn <> matured)",
         31: "a withdrawal paid more than the matured balance"}
-KNOWN = {110: "C13.zero_length_cycle", 111: "C13.zero_length_cycle", 112: "C13.zero_length_cycle", 120: "C13.sticky_burnout",
-         220: "C13.overdrawn_year", 221: "C13.overdrawn_year"}
+KNOWN = {}   # monitor code -> trigger id of a finding with status "known" (none at present: all three are fixed)
 
 
-REGION = {1: "C13.zero_length_cycle", 2: "C13.sticky_burnout", 3: "C13.overdrawn_year"}
+REGION = {}  # region number of RewardsCheck.region -> trigger id (none at present)
 
 
 def listed(trigger):
     """known or fixed finding: inside its trigger region the comparison with the model is one-sided"""
-    return any(f["property"] == "C13" and f["trigger"] == trigger and f["status"] in ("known", "fixed")
+    return any(f["property"] == "C13" and f["trigger"] == trigger and f["status"] == "known"
                for f in common.load_findings())
 
 
@@ -128,8 +129,12 @@ def judge(ctx, parts):
 
 
 def finding_inputs(ctx):
-    """pcases of the recorded findings: replayed on the implementation first thing in every run"""
+    """corpus + the replays of the recorded (now fixed) findings: run on the implementation first thing in
+    every run, expecting the property to hold (any monitor code on them is an ordinary VIOLATION)"""
     ins = []
+    cp = os.path.join(common.VERIF, "corpus", "C13.json")
+    if os.path.exists(cp):
+        ins += json.load(open(cp)).get("pcases", [])
     for f in common.load_findings():
         if f["property"] == "C13" and f.get("replay"):
             rp = json.load(open(os.path.join(common.VERIF, f["replay"])))
